@@ -626,7 +626,7 @@ func c18Large(w *mon.W, idx int) {
 
 func c18AtToWriter(w *mon.W, idx int) {
 	r := w.Rng
-	off := int64(r.Pick(0, 5, 4096, 1<<40))
+	off := []int64{0, 5, 4096, 1 << 40}[r.Intn(4)]
 	dev := &c18Dev{image: map[int64]byte{}}
 	switch r.Intn(3) {
 	case 1:
